@@ -8,6 +8,7 @@ import (
 	"strings"
 	"sync"
 	"testing"
+	"time"
 
 	"github.com/conduitio/conduit/pkg/foundation/cerrors"
 	"github.com/conduitio/conduit/pkg/lifecycle"
@@ -25,6 +26,12 @@ type c13Req struct {
 	OpenFail bool   `json:"open_fail,omitempty"`
 	Cancel   bool   `json:"cancel,omitempty"`   // the request's context is already cancelled
 	Parallel bool   `json:"parallel,omitempty"` // a second request for the same processor is issued at the same time
+	// CancelInOpen: the caller gives up while the node is inside the (slow) Open of this request's
+	// processor; once the call has returned a follow-up request for generation FollowGen is
+	// issued, still before that Open answers.
+	CancelInOpen bool `json:"cancel_in_open,omitempty"`
+	FollowGen    int  `json:"follow_gen,omitempty"`
+	follow       bool // this is such a follow-up request
 }
 
 type c13Replay struct {
@@ -72,6 +79,15 @@ func genC13(t *rapid.T) (*lab.Case, []c13Req) {
 			failGens[p] = gen
 		case lab.Chance(t, "cancel", 12):
 			r.Cancel = true
+		case lab.Chance(t, "cancelinopen", 25):
+			r.Cancel, r.CancelInOpen = true, true
+			gen++
+			r.FollowGen = gen
+			if lab.Chance(t, "cancelinopen-fails", 30) && failGens[p] == 0 {
+				// the abandoned request's Open fails: the follow-up must not inherit that error
+				r.OpenFail = true
+				failGens[p] = r.Gen
+			}
 		case lab.Chance(t, "parallel", 20):
 			r.Parallel = true
 		}
@@ -98,10 +114,26 @@ func runC13(c *lab.Case, reqs []c13Req, pick func(int) int) (*lab.Result, []*c13
 	next := 0
 	var w *lab.World
 	var runner *lab.Runner
-	var reqMu sync.Mutex
-	issue := func(rq c13Req) {
+	var reqMu, resMu sync.Mutex
+	type inOpen struct {
+		cancel   context.CancelFunc
+		returned chan struct{}
+		follow   c13Req
+	}
+	pendingOpen := map[string]*inOpen{} // proc + "/" + gen
+	var issue func(rq c13Req)
+	issue = func(rq c13Req) {
 		cr := &c13Result{req: rq}
+		resMu.Lock()
 		results = append(results, cr)
+		resMu.Unlock()
+		var io *inOpen
+		if rq.CancelInOpen {
+			io = &inOpen{returned: make(chan struct{}), follow: c13Req{AtStep: rq.AtStep, Proc: rq.Proc, Gen: rq.FollowGen, follow: true}}
+			resMu.Lock()
+			pendingOpen[rq.Proc+"/"+strconv.Itoa(rq.Gen)] = io
+			resMu.Unlock()
+		}
 		do := func(tag string) *lab.CtlResult {
 			return runner.Call(tag, func(ctx context.Context) error {
 				inst, err := w.Processors.Get(ctx, rq.Proc)
@@ -120,7 +152,14 @@ func runC13(c *lab.Case, reqs []c13Req, pick func(int) int) (*lab.Result, []*c13
 					}
 				}
 				rctx := ctx
-				if rq.Cancel {
+				if rq.CancelInOpen {
+					cctx, cancel := context.WithCancel(ctx)
+					resMu.Lock()
+					io.cancel = cancel
+					resMu.Unlock()
+					defer close(io.returned)
+					rctx = cctx
+				} else if rq.Cancel {
 					cctx, cancel := context.WithCancel(ctx)
 					cancel()
 					rctx = cctx
@@ -148,6 +187,29 @@ func runC13(c *lab.Case, reqs []c13Req, pick func(int) int) (*lab.Result, []*c13
 			cr.twin = do("reconfigure-twin")
 		}
 	}
+	// a slow Open: the caller of the request being opened gives up, returns, and the next request
+	// arrives while the node is still inside Open
+	onProcOpen := func(comp, gen string) {
+		resMu.Lock()
+		io := pendingOpen[comp+"/"+gen]
+		delete(pendingOpen, comp+"/"+gen)
+		var cancel context.CancelFunc
+		if io != nil {
+			cancel = io.cancel
+		}
+		resMu.Unlock()
+		if io == nil || cancel == nil {
+			return
+		}
+		cancel()
+		select {
+		case <-io.returned:
+		case <-time.After(500 * time.Millisecond):
+			return
+		}
+		issue(io.follow)
+		time.Sleep(3 * time.Millisecond) // let the follow-up stage its request
+	}
 	res := lab.RunCaseWith(c, func(n int) int {
 		steps++
 		for next < len(reqs) && reqs[next].AtStep <= steps {
@@ -155,7 +217,12 @@ func runC13(c *lab.Case, reqs []c13Req, pick func(int) int) (*lab.Result, []*c13
 			next++
 		}
 		return pick(n)
-	}, func(world *lab.World, r *lab.Runner) { w, runner = world, r })
+	}, func(world *lab.World, r *lab.Runner) {
+		w, runner = world, r
+		w.Hooks.OnProcOpen = onProcOpen
+	})
+	resMu.Lock()
+	defer resMu.Unlock()
 	return res, results
 }
 
@@ -244,7 +311,10 @@ func c13Oracle(c *lab.Case, res *lab.Result, results []*c13Result, h *lab.Histor
 					}
 				}
 			}
-			if r.req.OpenFail && r.ctl.Returned && r.ctl.Err == "" {
+			if r.req.follow && r.ctl.Returned && r.ctl.Err != "" && strings.Contains(r.ctl.Err, lab.Marker) && p.OpenFailGen != r.req.Gen {
+				add("request-answered-with-another-requests-error", fmt.Sprintf("processor %s: the request for gen %d (whose Open does not fail) returned the Open error of another request: %s", p.ID, r.req.Gen, r.ctl.Err), r.ctl.RetIdx)
+			}
+			if r.req.OpenFail && !r.req.CancelInOpen && r.ctl.Returned && r.ctl.Err == "" {
 				add("failed-open-reported-as-success", fmt.Sprintf("processor %s: opening gen %d fails but the request returned nil", p.ID, r.req.Gen), r.ctl.RetIdx)
 			}
 			if r.probed && !r.probeOK && r.ctl.Returned && h.Healthy() {
@@ -387,6 +457,10 @@ func TestC13(t *testing.T) {
 		cls := []string{"engine=" + c.Engine, fmt.Sprintf("applied=%d", applied), "final=" + res.FinalStatus.String()}
 		for _, r := range results {
 			switch {
+			case r.req.follow:
+				cls = append(cls, "req:follow-up-issued-during-abandoned-open")
+			case r.req.CancelInOpen:
+				cls = append(cls, "req:cancelled-during-open")
 			case r.req.OpenFail:
 				cls = append(cls, "req:open-fails")
 			case r.req.Cancel:
